@@ -23,14 +23,13 @@ import (
 func TestVerifC09_curve4q(t *testing.T) {
 	r := verifmc.Start(t, "C09", "curve4q")
 	defer r.Finish()
-	r.Rule("public keys: the FourQ point alphabet of unit fourq (flips of 1 quick / 11 thorough bases) plus the library's own public keys; secrets: a SHAKE value (thorough: also N-1, 1, two more SHAKE values, 2^256-1); " +
+	r.Rule("public keys: the FourQ point alphabet of unit fourq (flips of 1 quick / 11 thorough bases) plus the library's own public keys; secrets: a SHAKE value (thorough: also N-1, 1, 2^256-1); " +
 		"distinct = distinct (secret, public key bytes)")
 	c := ecurve.FourQ()
 	cases := c09ref.FourQCases(c09ref.EdOptions{FlipBases: r.Pick(1, 11)})
 	secrets := [][]byte{verifmc.Shake("c09-4q-secret-0", 32)}
 	if r.Thorough() {
-		secrets = append(secrets, fpx.ToLE(c09ref.Scalars(c.N)[1].V, 32), fpx.ToLE(c09ref.Scalars(c.N)[0].V, 32), verifmc.Shake("c09-4q-secret-1", 32),
-			verifmc.Shake("c09-4q-secret-2", 32), bytes.Repeat([]byte{0xff}, 32))
+		secrets = append(secrets, fpx.ToLE(c09ref.Scalars(c.N)[1].V, 32), fpx.ToLE(c09ref.Scalars(c.N)[0].V, 32), bytes.Repeat([]byte{0xff}, 32))
 	}
 	for i, s := range secrets {
 		var sec, pub curve4q.Key
